@@ -21,7 +21,7 @@ def main(tier):
             "tables give each operator its own meaning, including the three-valued AND/OR/?: cases (R-CONSTFOLD); "
             "every operator has a transfer function and every FunctionMapping table reached by an operator has its "
             "key (R-DISPATCH-FM); the 64-bit gate is registered over every expression position with only the "
-            "documented exemptions and recurses into subexpressions (R-GATE). "
+            "documented exemptions and recurses into subexpressions (R-GATE); the C++ type generated arithmetic is carried out in is chosen from the ranges of the result and of every operand, the back-end half of 'fits one 64-bit type together with its operands' (R-INTERMEDIATE). "
             "leaf ranges of UInt/Int/Bcd fields and the gate's 64-bit predicates equal the exact value ranges of those types for "
             "every width 1..64 (R-INTRANGE, by constant folding). "
             "Not decided: the gcd/modulus formulas, the infinity arithmetic helpers, tightness."))
@@ -33,4 +33,5 @@ def main(tier):
     chk.run("R-DISPATCH-FM", D.fm_flow_rule, r, s, floor=30, control=lambda: dctl)
     chk.run("R-GATE", P.gate, r, s, cx.sites, floor=4)
     chk.run("R-INTRANGE", RG.intrange, r, floor=190)
+    chk.run("R-INTERMEDIATE", RG.intermediate, r, floor=2)
     return chk.finish()
